@@ -749,6 +749,10 @@ func exhaustiveC20(thorough bool, emit func(C20Case) bool) {
 	emit(C20Case{Kind: "gostring", Entries: es})
 }
 
-func TestC20(t *testing.T) {
-	Run(t, Prop[C20Case]{ID: "C20", Gen: genC20, Exhaustive: exhaustiveC20, Check: checkC20})
+func propC20() Prop[C20Case] {
+	return Prop[C20Case]{ID: "C20", Gen: genC20, Exhaustive: exhaustiveC20, Check: checkC20}
 }
+
+func TestC20(t *testing.T) { Run(t, propC20()) }
+
+func FuzzGenC20(f *testing.F) { RunFuzz(f, propC20()) }
